@@ -4,7 +4,7 @@ from .common import Exc
 from .oracle_env import env_for
 from .url_grammar import gen_url, call, resource
 
-THEOREMS = ['C01_effective_port', 'C01_unsplit', 'C01_examples (computed)'] + ["(main statement: harness deciders on the implementation + model correspondence — partial)"]
+THEOREMS = ['C01_effective_port', 'C01_unsplit', 'C01_exceptions', 'C01_components', 'C01_examples (computed)'] + ["(main statement: harness deciders on the implementation + model correspondence — partial)"]
 REGEXES = ["CONTROL_CHARS_RE", "PROTOCOL_RE", "SLASH_SQUEEZE_RE", "ASCII_RE", "LOWERCASE_QUOTED_RE", "QUOTED_SPLIT_RE", "QUOTED_RE"]
 
 
